@@ -9,6 +9,9 @@ UNITS = {
 }
 # property -> clauses of the statement that no contract decides (reported in the evidence)
 UNDECIDED_CLAUSES = {
+    "C05": ["interleavings with other threads (single Mutex, trusted)", "a lookup through the async resolvers (only the cache API is under contract)"],
+    "C15": ["concurrent use from 2..8 threads (single Mutex around every operation: trusted, not modelled)",
+            "least-recently-used ORDER rests on the trusted PriorityQueue model (pop returns a minimal instant)"],
     "C02": ["that every Zone reaching resolve satisfies the representation invariant tree_wf (precondition; builders insert/insert_wildcard/merge not yet proved to establish it)",
             "corollaries named in the statement (existing name => never NameError, ...) are consequences of lookup_ok; not stated as separate lemmas"],
     "C12": ["children present on both sides: only 'merged by the same function' (recursion verified for termination and frame), no path-level union statement",
